@@ -13,7 +13,7 @@ run_demo() {
     (cd $KIT && timeout 600 go run ./cmd/demo >/tmp/seed_demo.out 2>&1); rc=$?
     echo "   demo rc=$rc: $(tail -2 /tmp/seed_demo.out | tr '\n' ' ' | cut -c1-300)"
   else
-    PKG=$(grep -ho 'client/pkg/[a-z/]*\|server/[a-z/]*' "$CH/notes.md" | head -1); PKG=${PKG:-client/pkg/orda}
+    PKG=${SEED_PKG:-client/pkg/orda}
     MOD=${PKG%%/*}; SUB=${PKG#*/}
     cp "$CH"/seeded_demo*_test.go "$WT/$PKG/" 2>/dev/null
     (cd $WT/$MOD && timeout 900 go test -vet=off -count=1 -run 'TestSeeded' ./$SUB/ >/tmp/seed_demo.out 2>&1); rc=$?
